@@ -1,9 +1,9 @@
 SPECIFICATION Spec
 CONSTANTS
-  W = 4
-  N = 2
-  THR = 7
-  THR2 = 3
-  MODE = "mul"
+  W = 2
+  N = 3
+  THR = 1
+  THR2 = 0
+  MODE = "square"
 INVARIANT Contract
 CHECK_DEADLOCK FALSE
